@@ -37,7 +37,12 @@ func TestCheck(t *testing.T) {
 }
 
 func runOps(idx, n int) {
-	probes := rapid.Custom(func(rt *rapid.T) []opProbe { return genOps(rt, n) }).Example(drv.Seed()*97 + idx)
+	probes := rapid.Custom(func(rt *rapid.T) []opProbe {
+		if idx == 0 {
+			return sweepOps(rt)
+		}
+		return genOps(rt, n)
+	}).Example(drv.Seed()*97 + idx)
 	src := opsSource(probes)
 	c := drv.NewCase("c08o_", map[string]string{"main.go": src}, true)
 	defer c.Remove()
